@@ -106,6 +106,9 @@ VManifest(e) ==
      \* (not judged for immutable directories: get_repair_cap answers None for them although their repair works)
      ELSE IF e.has_units /\ \E i \in 1..Len(e.vis) : Graph.type[e.vis[i].obj] # "idir" /\
                 e.vis[i].rc # (HasVC(Graph, e.vis[i].obj) /\ Repairable(Graph, e.vis[i].obj, LvlAt(e.vis[i].path))) THEN "DR_unit_repaircap"
+     \* the weakest cap that can repair: the verify-cap of an immutable file, the write-cap of a mutable object
+     ELSE IF e.has_units /\ \E i \in 1..Len(e.vis) : Graph.type[e.vis[i].obj] # "idir" /\ e.vis[i].rc /\
+                e.vis[i].rck # (IF Mutable(e.vis[i].obj) THEN "w" ELSE "v") THEN "DR_unit_repaircap_kind"
      ELSE IF e.has_stats THEN VStats(e.stats, e.via)
      ELSE ""
 
@@ -267,6 +270,15 @@ VAgg(e) ==
       Wb == e.web
       paths == {L[i].path : i \in Dist(L)}
       unh == Wb.unhealthy
+      H3(x) == <<x.h, x.r, x.nc>>
+      \* "repair-successful: True if repair was attempted and the file was fully healthy afterwards. False if no repair was
+      \* attempted, or if a repair attempt failed"; LIT files: empty storage-index, nothing attempted, results = {healthy: true}
+      DocOK(d) == LET x == L[d.i] IN
+                  /\ d.code = 200 /\ d.lit = x.lit /\ d.si_ok
+                  /\ (x.lit => d.pre.h /\ ~d.att /\ ~d.succ)
+                  /\ (~x.lit => /\ H3(d.pre) = H3(x.pre) /\ d.pre.listed = d.pre.nc
+                                /\ (e.repair => /\ d.att = x.att /\ d.succ = (x.att /\ x.succ)
+                                                /\ H3(d.post) = H3(x.post) /\ d.post.listed = d.post.nc))
       EntryOK(x) == \E i \in Dist(L) : L[i].path = x.path /\ <<x.h, x.r, x.nc>> = <<L[i].pre.h, L[i].pre.r, L[i].pre.nc>> /\ x.listed = x.nc
   IN IF ~A.root_ok THEN "DR_root_storage_index"
      ELSE IF ToSet(A.paths) # paths \/ Len(A.paths) # Cardinality(paths) THEN "DR_all_results"
@@ -289,6 +301,8 @@ VAgg(e) ==
      ELSE IF Ids(Wb.corrupt) # ExpIds(L, FALSE) \/ Len(Wb.corrupt) # Cardinality(ExpIds(L, FALSE)) THEN "DR_web_corrupt_list"
      ELSE IF e.repair /\ (Ids(Wb.remaining) # ExpRemaining(L) \/ Len(Wb.remaining) # Cardinality(ExpRemaining(L))) THEN "DR_web_remaining_list"
      ELSE IF ~Wb.stats_ok THEN "DR_web_stats"
+     \* the document of t=check / t=check&repair=true of every single object
+     ELSE IF \E d \in ToSet(e.docs) : ~DocOK(d) THEN "DR_web_object_document"
      \* last (known deviation of the unchanged code: nothing else of the event is hidden by it)
      ELSE IF e.repair /\ Wb.c.ncorrupt_post # AggRepair(L).ncorrupt_post THEN "DR_web_corrupt_shares_post_repair"
      ELSE ""
